@@ -13,12 +13,14 @@ structure StepOut where
   res : String
   events : List String        -- managed-object events
   setEvents : List String
+  phaseEvents : List String   -- writes on ObjectSetPhase objects
 
 def parseStep (tok : String) : Option StepOut :=
   if !tok.startsWith "R " then none
   else match tok.splitOn " | " with
-    | [a, b, c, _] => some { res := (a.drop 2).toString, events := (if b.isEmpty then [] else b.splitOn ";"),
-                             setEvents := (if c.isEmpty then [] else c.splitOn ";") }
+    | [a, b, c, d] => some { res := (a.drop 2).toString, events := (if b.isEmpty then [] else b.splitOn ";"),
+                             setEvents := (if c.isEmpty then [] else c.splitOn ";"),
+                             phaseEvents := (if d.isEmpty then [] else d.splitOn ";") }
     | _ => none
 
 /-- conditions of an `S` event as (type, status, reason, obsGen, msg) -/
@@ -81,20 +83,84 @@ def phaseIdxOfKey (fs : List (Nat × ObjFacts)) (ks : String) : Option Nat :=
 def quiet (st : JStep) : Bool := (st.env.getD []).isEmpty && (st.setEnv.getD []).isEmpty
 
 inductive Which where
-  | c03 | c04 | c06 | c09
+  | c03 | c04 | c06 | c09 | c11 | c15
   deriving DecidableEq
 
-def judge (which : Which) (cfg : Cfg) (st : JStep) (pre : Sys) (out : StepOut) : Option String := Id.run do
+/-- C11 on the controller-level stream: a namespaced ObjectSet / same-cluster ObjectSetPhase never
+writes outside its namespace or to cluster-scoped kinds (any step, rollout and teardown). -/
+def judgeNs (scn : SysCommon.Scn) (out : StepOut) : Option String := Id.run do
+  if scn.cluster then return none
+  for e in out.events do
+    match (eventKey e).splitOn "/" with
+    | [kind, ns, _] => if ns != "ns1" || scopeOf kind != .namespaced then return some s!"bad write-outside-owner-namespace {e}"
+    | _ => return some s!"bad unparsable-event {e}"
+  return none
+
+/-- C15 for a pass of the ObjectSetPhase controller on phase object `name`. -/
+def judgePhaseStep (scn : SysCommon.Scn) (cfg : Cfg) (name : String) (pre : Sys) (out : StepOut) : Option String := Id.run do
+  let some p := pre.w.phases name | return none
+  let ow := Pko.Model.Remote.phaseOwner p (setKindOf scn) (nsOf scn)
+  let keys := p.objs.map fun o => keyStr (keyOf cfg ow o)
+  for e in out.events do
+    if !keys.contains (eventKey e) then return some s!"bad phase-writes-unlisted-object {e}"
+    if p.paused && !p.deleting then return some s!"bad phase-write-while-paused {e}"
+    if !p.deleting && eventVerb e != "A" then return some s!"bad non-apply-write-in-phase-rollout {e}"
+  match judgeNs scn out with
+  | some b => return some b
+  | none => pure ()
+  for se in out.phaseEvents do
+    if sOk se && hasCond (sConds se) "Available" "True" then
+      for o in p.objs do
+        match pre.w.store.get (keyOf cfg ow o) with
+        | none => return some s!"bad phase-available-with-absent-object {o.name}"
+        | some c => if sureFail c then return some s!"bad phase-available-with-failing-object {o.name}"
+  return none
+
+
+def judge (which : Which) (scn : SysCommon.Scn) (cfg : Cfg) (st : JStep) (pre : Sys) (out : StepOut) : Option String := Id.run do
   let some o := pre.sets st.set | return none
   let fs := factsOf cfg o pre
   let archivedDone := condTrue o.conds "Archived"
   let tearing := o.deleting || o.lifecycle == .archived
   let dupKeys := (fs.map (·.2.key)).eraseDups.length != fs.length
   match which with
+  | .c11 => return judgeNs scn out
+  | .c15 =>
+    let delegated := o.phases.filter (·.cls != "")
+    for pe in out.phaseEvents do
+      let toks := pe.splitOn " "
+      let verb := toks.getD 0 ""
+      let nm := ((toks.getD 1 "").splitOn "/").getLastD ""
+      if verb == "C" then
+        if !(delegated.any fun ph => o.name ++ "-" ++ ph.name == nm) then return some s!"bad phase-object-for-undelegated-phase {pe}"
+        if (pre.w.phases nm).isSome then return some s!"bad phase-object-recreated {pe}"
+        if (out.phaseEvents.filter (· == pe)).length > 1 then return some s!"bad phase-object-created-twice {pe}"
+      if verb == "X" && !tearing then return some s!"bad phase-object-deleted-during-rollout {pe}"
+    for se in out.setEvents do
+      if sOk se && hasCond (sConds se) "Available" "True" && quiet st then
+        for ph in delegated do
+          match pre.w.phases (o.name ++ "-" ++ ph.name) with
+          | none => return some s!"bad available-without-phase-object {ph.name}"
+          | some po =>
+            if po.paused != (o.lifecycle == .paused) then return some s!"bad available-trusted-across-pause-flip {po.name}"
+            match findCond po.conds "Available" with
+            | some c => if c.status != "True" || c.obsGen != po.gen then return some s!"bad available-trusts-stale-or-failing-phase-report {po.name}"
+            | none => return some s!"bad available-without-phase-report {po.name}"
+    return none
   | .c03 =>
     if tearing || archivedDone || !quiet st || dupKeys then return none
     -- first phase holding an object that is absent or failing in the pre-state
-    let failing := (fs.filter fun f => !f.2.passing).map (·.1)
+    -- a delegated phase counts as failing unless its phase object exists, needs no pause flip and
+    -- reports Available=True for its current generation
+    let delegatedFailing := o.phases.zipIdx.filterMap fun (ph, i) =>
+      if ph.cls == "" then none
+      else match pre.w.phases (o.name ++ "-" ++ ph.name) with
+        | none => some i
+        | some po =>
+          let ok := po.paused == (o.lifecycle == .paused) &&
+            (match findCond po.conds "Available" with | some c => c.status == "True" && c.obsGen == po.gen | none => false)
+          if ok then none else some i
+    let failing := (fs.filter fun f => !f.2.passing).map (·.1) ++ delegatedFailing
     let firstFail := failing.foldl (fun (m : Option Nat) i => match m with | none => some i | some j => some (min i j)) none
     for e in out.events do
       if eventVerb e == "A" then
@@ -238,7 +304,15 @@ def monitor (which : Which) (s : SysCommon.Scn) (out : String) : String := Id.ru
       match parseStep tok with
       | none => return s!"bad unparsable-step {i} {tok.take 40}"
       | some so =>
-        match judge which cfg st sys so with
+        match judge which s cfg st sys so with
+        | some b => return s!"{b} step={i}"
+        | none => pure ()
+    if st.op == "phase" && (which == .c15 || which == .c11) then
+      match parseStep tok with
+      | none => return s!"bad unparsable-step {i} {tok.take 40}"
+      | some so =>
+        let r := if which == .c11 then judgeNs s so else judgePhaseStep s (phaseCfgOf s) st.set sys so
+        match r with
         | some b => return s!"{b} step={i}"
         | none => pure ()
     if mtok != tok then return "ok"      -- diverged: later pre-states are not the implementation's
